@@ -139,15 +139,23 @@ class Game:
                 frames = [F.padding(20)]
         else:
             raise ValueError("unknown path packet kind %r" % (kind,))
-        if not probing and opts.get("ack", True):
+        if not probing and opts.get("ack", True) and opts.get("epoch", "1rtt") == "1rtt":
             # acknowledge what the subject has sent so far (an ACK frame is not a probing frame): without it the subject's
             # congestion window / pacer stops it from sending the next PATH_CHALLENGE after about three migrations
             ack = self.ack_frame()
             if ack is not None:
                 frames.insert(0, ack)
         kw = {"pn_len": 4}
+        epoch = opts.get("epoch", "1rtt")
+        if epoch != "1rtt":
+            # Initial / Handshake epochs (handshake-state worlds): the "validated by the handshake" branch of the block; the
+            # harness does not track these packet-number spaces, so the active-path expectation is switched off
+            self.exp_active = None
+            probing = False if kind in ("ping", "bigping") else probing
         base = self.max_pn if self.max_pn is not None else 0
-        if opts.get("pn") == "old":
+        if epoch != "1rtt":
+            pn = pu.next_pn(epoch)
+        elif opts.get("pn") == "old":
             pn = max(0, base - 1 - opts.get("back", 0))
         elif opts.get("pn") == "same":
             pn = max(0, base)
@@ -159,7 +167,9 @@ class Game:
             cids = [c.cid for c in lab.subject.conn._host_cids]
             if cids:
                 kw["dcid"] = cids[opts["dcid_index"] % len(cids)]
-        pkt = pu.build_packet("1rtt", frames, **kw)
+        pkt = pu.build_packet(epoch, frames, **kw)
+        if epoch == "initial" and lab.peer_side == "client" and len(pkt) < 1200:
+            pkt += bytes(1200 - len(pkt))
         src = self.addr(ai)
         before_closed = self._closing()
         n_recv = self._n_received()
@@ -168,7 +178,7 @@ class Game:
         else:
             lab.pair.deliver_now(pkt, src, lab.subject)
         accepted = self._n_received() > n_recv and not before_closed and not self._closing() and not lab.subject.raised
-        if accepted and newer:
+        if accepted and newer and epoch == "1rtt":
             if not probing:
                 self.exp_active = src
             self.max_pn = pn
@@ -293,7 +303,7 @@ def gen_history(rng, n_addrs, length, side, live=False):
                     ro["nopump"] = True
                 src = ai
                 if rng.random() < 0.12:
-                    src = rng.choice(visited + [0])           # the response arrives from another address
+                    src = rng.choice(visited + [0, n_addrs + 2])   # the response arrives from another (or a never-seen) address
                 if rng.random() < 0.2:
                     ops.append(["adv", rng.choice([0.001, 0.03, 0.3])])   # late
                 ops.append(["path", src, rng.choice(["resp", "resp", "resp_ping", "chalresp"]), ro])
@@ -302,6 +312,27 @@ def gen_history(rng, n_addrs, length, side, live=False):
         if rng.random() < (0.85 if style == "validate_all" else 0.3):
             ops.append(["adv", rng.choice([0.03, 0.03, 0.05, 0.5])])
     return ops
+
+
+def handshake_histories(rng, n):
+    """handshake-state worlds: Initial / Handshake-epoch packets of the key-holding peer from the home address and from other
+    addresses (a Handshake packet validates the path it arrives on), mixed with garbage-free 1-RTT-less traffic"""
+    out = []
+    for i in range(n):
+        side = ("server", "client")[i % 2]
+        ops = []
+        for j in range(rng.randint(2, 7)):
+            ai = rng.choice([0, 0, 1, 2, 3, 4])
+            ep = rng.choice(["handshake", "handshake", "initial"])
+            kind = rng.choice(["ping", "ping", "pad", "bigping"])
+            o = {"epoch": ep}
+            if rng.random() < 0.2:
+                o["nopump"] = True
+            ops.append(["path", ai, kind, o])
+            if rng.random() < 0.3:
+                ops.append(["adv", rng.choice([0.001, 0.03])])
+        out.append((side, ops))
+    return out
 
 
 def directed_histories():
